@@ -80,15 +80,17 @@ def node_counts(orig, n_sym, T):
     return nodes, nodes - per_depth[0]
 
 
-def lookahead_nodes(full, orig, n_sym, T):
-    """Number of nodes (depth t < T-1) below which some leaf carries a *later* value different
-    from the value at t: there, an implementation that peeks would be caught."""
+def lookahead_nodes(full, orig, n_sym, T, last=None):
+    """Number of nodes (depth t < last) below which some leaf carries a *later* value (steps
+    t+1..last, default last = T-1) different from the value at t: there, an implementation that
+    peeks would be caught."""
     N = full.size(0)
     x = full.reshape(N, T, -1)
+    last = T - 1 if last is None else last
     count = 0
-    for t in range(T - 1):
-        changes = ((x[:, t + 1:] != x[:, t: t + 1]) & ~(x[:, t + 1:].isnan() & x[:, t: t + 1].isnan())
-                   ).flatten(1).any(1)
+    for t in range(last):
+        later = x[:, t + 1: last + 1]
+        changes = ((later != x[:, t: t + 1]) & ~(later.isnan() & x[:, t: t + 1].isnan())).flatten(1).any(1)
         g = n_sym ** (T - 1 - t)
         ids = orig // g
         count += int(torch.unique(ids[changes]).numel())
@@ -310,7 +312,7 @@ def hedge_tree(ctx, block):
     ctx.add("transitions", edges)
     ctx.add("traces_validated_against_impl", N)
     moving = (hedge[..., -2] != hedge[..., -3]).any(-1) if T >= 3 else (hedge[..., -2] != 0).any(-1)
-    ctx.tick(nodes + N, nontrivial=lookahead_nodes(x[:, :-1], orig, n_sym, T - 1) + int(moving.sum()))
+    ctx.tick(nodes + N, nontrivial=lookahead_nodes(x, orig, n_sym, T, last=T - 2) + int(moving.sum()))
     rtol, atol = (0.0, 0.0) if exact else (RTOL, ATOL)
     if world.full:
         core_bad = check_prefix_measurable(x, n_sym, T, atol=atol, rtol=rtol)
@@ -502,9 +504,11 @@ def run(ctx):
         hedges = ["default"] if w["listed"] else ["default", "ul+listed"]
         if ctx.thorough and not w["listed"] and w["ul"] in ("brownian", "heston"):
             hedges.append("ul+listed+listed3")
+        if not w["listed"] and w["ul"] in ("brownian", "heston") and w["kind"] == "european" and w["call"]:
+            hedges += ["listed+ul", "listed"]   # the listed option first: the time grid is read from its price
         for hv in hedges:
             wh = dict(w, hedge=hv)
-            H = {"default": 1, "ul+listed": 2, "ul+listed+listed3": 3}[hv]
+            H = {"default": 1, "ul+listed": 2, "ul+listed+listed3": 3, "listed+ul": 2, "listed": 1}[hv]
             for m in model_specs(H, w["listed"]):
                 if not hw.model_ok(m, wh):
                     continue
